@@ -77,9 +77,13 @@ def build_unit(plan, u, bdir, tier):
         with open(os.path.join(ud, fn), 'w') as f:
             f.write(text)
     ll = os.path.join(ud, 'shim.ll')
-    cmd = ['clang++-14', '-std=c++20', '-O0', '-g', '-fno-discard-value-names', '-S', '-emit-llvm', '-DFCPPT_VERIF', '-Wno-everything'] + incs
-    if u.sroa:
-        cmd += ['-Xclang', '-disable-O0-optnone']
+    cmd = ['clang++-14', '-std=c++20', '-g', '-fno-discard-value-names', '-S', '-emit-llvm', '-DFCPPT_VERIF', '-Wno-everything'] + incs
+    if u.inline:
+        cmd += ['-O1', '-Xclang', '-disable-llvm-passes']
+    elif u.sroa:
+        cmd += ['-O0', '-Xclang', '-disable-O0-optnone']
+    else:
+        cmd += ['-O0']
     cmd += ['-D' + d for d in u.defines]
     t0 = time.time()
     srcs = [shim] + [os.path.join(REPO, s) for s in u.srcs]
@@ -97,7 +101,7 @@ def build_unit(plan, u, bdir, tier):
     else:
         shutil.copy(lls[0], ll)
     if u.sroa:
-        rc, out, err, _ = run(['opt-14', '-S', '-passes=sroa,mem2reg', ll, '-o', ll + '.opt'], timeout=300)
+        rc, out, err, _ = run(['opt-14', '-S', '-passes=' + ('inline,sroa,mem2reg' if u.inline else 'sroa,mem2reg'), ll, '-o', ll + '.opt'], timeout=300)
         if rc != 0:
             raise Infra('opt failed:\n' + err[-2000:])
         ll = ll + '.opt'
